@@ -6,6 +6,7 @@ package sx
 import (
 	"fmt"
 	"go/types"
+	"golang.org/x/tools/go/ssa"
 	"strings"
 	"unicode/utf8"
 )
@@ -67,6 +68,24 @@ func init() {
 		call(fr.i, fr, 0, a[1], nil)
 		return nil
 	})
+	// sync.Pool: no pooling, Get makes a new value
+	reg("(*sync.Pool).Get", func(fr *frame, a []value) value {
+		i := fr.i
+		t := i.namedType("sync", "Pool")
+		st := (*(a[0].(*value))).(structure)
+		nf := st[i.fieldIndex(t, "New")]
+		if nf == nil {
+			return iface{}
+		}
+		if c, ok := nf.(*closure); ok && c == nil {
+			return iface{}
+		}
+		if f, ok := nf.(*ssa.Function); ok && f == nil {
+			return iface{}
+		}
+		return call(i, fr, 0, nf, nil)
+	})
+	reg("(*sync.Pool).Put", func(fr *frame, a []value) value { return nil })
 	reg("(*sync.WaitGroup).Add", func(fr *frame, a []value) value {
 		st := fr.i.sync()
 		p := a[0].(*value)
